@@ -22,15 +22,15 @@ CHECKS = {
     "C05": ("model_checking", K_TECH + "; deviation-bounded fault enumeration on revocation timelines",
             "The same history space with a ghost 'revoked at' stamp per row; every encrypt more than one interval after an IK revocation (two after an SK revocation) must not use / create under the revoked key; plus timelines of a long-lived session around the interval marks with every placement of up to 2-3 failing metastore reads / KMS unwraps (a failed re-check must not be answered from the cached copy).", "6/C05"),
     "C06": ("exploration", "exhaustive enumeration of an adversarial id universe (all ordered pairs) on the real SDK",
-            "All concatenations of up to 3 (thorough: 4) tokens from the naming scheme's own vocabulary as partition ids; every ordered pair (P,Q): session P must fail on Q's genuine record; with/without region suffix, two service/product pairs, per-session / shared / no key cache / sessions handed out by the session cache; every record names its own partition's key id.", "6/C06"),
+            "All concatenations of up to 3 (thorough: 4) tokens from the naming scheme's own vocabulary as partition ids; every ordered pair (P,Q): session P must fail on Q's genuine record; with/without region suffix, two service/product pairs, per-session / shared / no key cache / sessions handed out by the session cache; every record names its own partition's key id. Long ids that share a 63..300-byte head are part of the universe.", "6/C06"),
     "C07": ("exploration", "bounded-exhaustive mutation enumeration (every single-bit flip, truncation, field recombination, structural case) on the real SDK",
-            "Every single-bit flip and truncation of Data and wrapped key of 4 genuine records, all 4^5 field recombinations, structural cases (incl. the parent key id replaced by every prefix / suffix / one-character deletion of itself and by separator-free, separator-only and very long strings), loader failures, and every bit flip / truncation / structural corruption of every metastore row, through Decrypt and Load with cold, warm and stale caches, over a plain and a region-suffixing metastore; plus the key rows corrupted in their stored form (SQL key_record JSON text, DynamoDB v1/v2 item attributes) so that the real metastore decoders are on the path; result must be the original payload or an error, never a panic.", "6/C07"),
+            "Every single-bit flip and truncation of Data and wrapped key of 4 genuine records, all 4^5 field recombinations, structural cases (incl. the parent key id replaced by every prefix / suffix / one-character deletion of itself and by separator-free, separator-only and very long strings), loader failures, and every bit flip / truncation / structural corruption of every metastore row, through Decrypt and Load with cold, warm and stale caches, over a plain and a region-suffixing metastore; plus the key rows corrupted in their stored form (SQL key_record JSON text, DynamoDB v1/v2 item attributes) so that the real metastore decoders are on the path; result must be the original payload or an error, never a panic. The same payload-or-error rule through the sidecar request mapping for every malformed decrypt record shape.", "6/C07"),
     "C08": ("model_checking", "stateless schedule exploration of the real code under a controlled scheduler (preemption-bounded DFS + happens-before state caching)",
             "Every interleaving, up to the stated preemption bound, of 2-3 goroutines decrypting/encrypting/opening sessions against one factory "
             "with capacity-1/2 shared key caches of each eviction policy is executed on the real SDK; oracle: every operation succeeds with the right bytes, "
             "no access to a destroyed secret, everything released after close. Scenarios: eviction vs hit for every policy, encrypt/decrypt mixes, two SK generations, stale-entry refresh, session churn, session cache with one and with two holders of the evicted session, asynchronous eviction at capacity 100 (thorough), rotation of the cached latest key under users of the old generation, session churn in the policy corners (no-cache / SK-only together with a shared IK cache).", "6/C08"),
     "C09": ("model_checking", K_TECH + "; tracking secret factory accounting",
-            "The same history space with a tracking SecretFactory: after every call data keys are released, with caching disabled nothing stays live, live secrets are exactly the open keys reachable from the caches (walker), at most one per key and cache and never above capacity, and after restart every secret of the closed factory was released exactly once and never touched again; the same accounting on every error path of the fault space (<= 2-4 injected metastore/KMS/AEAD/allocator faults) and at the end of every interleaving of the session-cache eviction schedule harnesses.", "6/C09"),
+            "The same history space with a tracking SecretFactory: after every call data keys are released, with caching disabled nothing stays live, live secrets are exactly the open keys reachable from the caches (walker), at most one per key and cache and never above capacity, and after restart every secret of the closed factory was released exactly once and never touched again; the same accounting on every error path of the fault space (<= 2-4 injected metastore/KMS/AEAD/allocator faults) and at the end of every interleaving of the session-cache eviction schedule harnesses. The K plan includes a configuration whose IK and SK cache capacities differ.", "6/C09"),
     "C15": ("model_checking", "explicit-state breadth-first search over cache operation histories on the real cache against reference models",
             "BFS over Set/Get/Delete/tick/Len/Close histories on 4 keys for lru/lfu/slru/tinylfu, capacities 1..6 and 99/100/101, with/without expiry, synchronous and asynchronous eviction (event goroutine under the controlled scheduler); each step compared with a reference model: values, Len, exact multiset of eviction callbacks, victims per the policy's definition, no panic/deadlock; plus asynchronous eviction with two user goroutines and the event goroutine under the controlled scheduler (callbacks exactly once and delivered before Close returns). Plus a fixed family of long deterministic histories (4 access patterns x policies x capacities up to 128, 300-6000 operations, TinyLFU across its sample reset), every step judged by the same model.", "6/C15"),
     "C19": ("model_checking", "exhaustive enumeration of request sequences against a reference protocol automaton on the real handler",
@@ -39,7 +39,7 @@ CHECKS = {
 
 CHECKS.update({
     "C02": ("fault_enumeration", "deviation-bounded exhaustive enumeration of environment faults (explorer with environment choice points) on the real SDK",
-            "One encrypt from each prepared start state (cold, warm, rotating, revoked IK/SK, SK-only) with every placement of up to 2 (thorough: 3) faults over the metastore (error, false duplicate, error-after-write) and KMS calls it makes; a returned record must name rows present in the store snapshot taken at that instant and be decryptable by the independent reference from snapshot + KMS alone (= crash after return); after the faults stop the next encrypt must succeed. Region-suffixed key ids and a cancelled caller context (during any call) are part of the space. Plus schedules: two sessions of one factory encrypt at the same time over one real metastore object (DynamoDB plugins, memory): durable chain at return, fresh-process decrypt. A slow metastore / KMS call during which the clock crosses a creation-stamp bucket is one more alternative at every call.", "6/C02"),
+            "One encrypt from each prepared start state (cold, warm, rotating, revoked IK/SK, SK-only) with every placement of up to 2 (thorough: 3) faults over the metastore (error, false duplicate, error-after-write) and KMS calls it makes; a returned record must name rows present in the store snapshot taken at that instant and be decryptable by the independent reference from snapshot + KMS alone (= crash after return); after the faults stop the next encrypt must succeed. Region-suffixed key ids and a cancelled caller context (during any call) are part of the space. Plus schedules: two sessions of one factory encrypt at the same time over one real metastore object (DynamoDB plugins, memory): durable chain at return, fresh-process decrypt. A slow metastore / KMS call during which the clock crosses a creation-stamp bucket is one more alternative at every call. The spies honour a cancelled context, so a context captured from an earlier call shows as a failed recovery.", "6/C02"),
     "C10": ("fault_enumeration", "deviation-bounded exhaustive enumeration of faults with retained-buffer inspection",
             "The fault space extended with AEAD and secret-allocation failures: the spies retain every plaintext slice they handed out (KMS unwrap, AEAD key unwraps, the buffer given to SecretFactory.New) and all must be zero when the operation returns; plus the AWS KMS plugin product checking GenerateDataKey / Decrypt plaintext. The caller may cancel its context during any metastore / KMS call (which then answers normally). Both real secret factories (shadow page table) wipe the buffer handed to New; encrypt + cold decrypt through the SDK with them leave no unwrapped key readable.", "6/C10"),
     "C11": ("model_checking", "stateless schedule exploration (preemption-bounded DFS) over a shadow page table + exhaustive operation sequences on real pages observed through /proc/self/smaps",
@@ -47,13 +47,13 @@ CHECKS.update({
     "C12": ("fault_enumeration", "deviation-bounded exhaustive enumeration of failing memory primitives over a shadow page table",
             "Scripts of New/CreateRandom/WithBytes/nested/WithBytesFunc/Reader/Close/Close for both implementations with every placement of up to 2 (thorough: 3) failing primitives (Alloc, Lock, Protect, Unlock, Free, random source): error instead of a degraded secret, no page of a failed creation left mapped or locked, secret bytes zero at unlock, failed open leaves the page inaccessible and the secret usable, failed Close retryable, in-use counter balanced. Reads between a failed Close and its retry are refused or exact. Plus schedules: a reader inside its callback and a Close waiting for it, every interleaving x every placement of 1-2 failing primitives (nobody left blocked, Close retryable).", "6/C12"),
     "C13": ("model_checking", "explicit-state breadth-first search (closed state space) over metastore operations against a reference table, through semantic fakes",
-            "BFS over Store/Load/LoadLatest on 2 ids x 2 (thorough: 3) stamps x 4 record variants until no new table is reachable, for the memory, SQL (3 dialects + default) and DynamoDB v1/v2 metastores (table name / region suffix variants); the SQL fake parses and executes the statements under the documented schema, the DynamoDB fake evaluates conditions, key conditions, projection, ordering and is eventually consistent unless ConsistentRead is set; every slot is read back after every transition; DynamoDB variants with transient read errors (a retry must not become a stale read); plus every interleaving of 2-3 concurrent Stores of one key (and a reader) on the in-memory metastore. Plus concurrent callers (two readers of different ids, one storer) on one DynamoDB metastore object of each plugin, the transport reading requests when they are delivered. A SQL result set that breaks while it is fetched may fail the read but never reports no-such-record; two concurrent storers of different keys. The table search is repeated with creation stamps before the epoch and ending at zero for one implementation of each kind.", "6/C13"),
+            "BFS over Store/Load/LoadLatest on 2 ids x 2 (thorough: 3) stamps x 4 record variants until no new table is reachable, for the memory, SQL (3 dialects + default) and DynamoDB v1/v2 metastores (table name / region suffix variants); the SQL fake parses and executes the statements under the documented schema, the DynamoDB fake evaluates conditions, key conditions, projection, ordering and is eventually consistent unless ConsistentRead is set; every slot is read back after every transition; DynamoDB variants with transient read errors (a retry must not become a stale read); plus every interleaving of 2-3 concurrent Stores of one key (and a reader) on the in-memory metastore. Plus concurrent callers (two readers of different ids, one storer) on one DynamoDB metastore object of each plugin, the transport reading requests when they are delivered. A SQL result set that breaks while it is fetched may fail the read but never reports no-such-record; two concurrent storers of different keys. The table search is repeated with creation stamps before the epoch and ending at zero for one implementation of each kind. The DynamoDB fake returns the old item of a failed conditional write when asked (ALL_OLD).", "6/C13"),
     "C14": ("model_checking", "stateless schedule exploration with context switches placed at external calls (unbounded for 2 processes) + happens-before caching",
             "2-3 processes with their own factories race one encrypt each (thorough: two) over one spy metastore/KMS from cold, SK-only, expired, revoked-IK and revoked-SK states (plus a clock crossing of the precision bucket): every returned record names stored rows and is decryptable by every process and by the reference, unsaved keys of refused inserts are released, the store only grew; the same 2-process race over the SDK's own instrumented MemoryMetastore with preemptions inside its Store/Load bodies. The real-store race also runs over both DynamoDB plugins (eventually consistent fake) and a fresh process must decrypt every record.", "6/C14"),
     "C16": ("model_checking", "stateless schedule exploration of the real code under a controlled scheduler (preemption-bounded DFS + happens-before state caching)",
             "2-3 goroutines get/use/close cached sessions over more partitions than the session cache holds (capacity 1-2, all policies), including expiry while held and factory close racing the holders' closes; the cache's event goroutine and the Remove goroutines are threads of the exploration: held sessions keep working, gets share one session while cached, evicted sessions are torn down exactly once after their last holder, everything is released and no goroutine is left after factory close.", "6/C16"),
     "C17": ("fault_enumeration", "exhaustive product of regional failure patterns over fake regional KMS endpoints on both real plugins",
-            "n = 1..3 (thorough: 4) regions, every preferred region, every subset failing GenerateDataKey and/or Encrypt at wrap time, every {ok, Decrypt fails, wrong data key} assignment at unwrap time, the four v1/v2 pairings and envelopes with an entry removed: success conditions, exactly one entry per succeeded region, identical bytes, preferred-first / at-most-once / stop-at-first-success call order, data-key plaintext wiped; the regional endpoints reject requests naming another region's key; plus every interleaving (preemption bound 2-3) of the fan-out goroutines of EncryptKey with 3-4 regions on both (instrumented) plugins. Every iteration order of the region map (n!) x every preferred region through the public constructors. The local AEAD step of the plugins is made to fail (wrap / unwrap): an error is reported and the data-key plaintext is wiped. Regional failures shaped like timeouts / cancellations of the single request (every region in turn, every shape) must not stop the fallback.", "6/C17"),
+            "n = 1..3 (thorough: 4) regions, every preferred region, every subset failing GenerateDataKey and/or Encrypt at wrap time, every {ok, Decrypt fails, wrong data key} assignment at unwrap time, the four v1/v2 pairings and envelopes with an entry removed: success conditions, exactly one entry per succeeded region, identical bytes, preferred-first / at-most-once / stop-at-first-success call order, data-key plaintext wiped; the regional endpoints reject requests naming another region's key; plus every interleaving (preemption bound 2-3) of the fan-out goroutines of EncryptKey with 3-4 regions on both (instrumented) plugins. Every iteration order of the region map (n!) x every preferred region through the public constructors. The local AEAD step of the plugins is made to fail (wrap / unwrap): an error is reported and the data-key plaintext is wiped. Regional failures shaped like timeouts / cancellations of the single request (every region in turn, every shape) must not stop the fallback. The v2 plugin is also built from a base configuration that already names a region.", "6/C17"),
     "C18": ("exploration", "exhaustive product of input shapes checked in both directions against an independent reference implementation written from the documentation",
             "Payload shapes x partition ids x timestamps x revoked x plain/suffixed hierarchy x static/AWS KMS x storage channel (memory, SQL text, DynamoDB v1/v2 items): the reference decodes the bytes the SDK stored with its own decoders (exact JSON keys, base64, ciphertext||tag||nonce, key-id format) and decrypts; the SDK decrypts rows and records the reference wrote; protobuf mapping through the real sidecar handler; v1<->v2 DynamoDB item exchange.", "6/C18"),
     "C20": ("model_checking", K_TECH + "; repetition probes from every state",
